@@ -2,10 +2,10 @@ CONSTANTS
   Tasks <- T3
   MayCancel = TRUE
   Spurious = FALSE
-  RecheckUnderLock = FALSE
+  RecheckUnderLock = TRUE
   NotifyAfterPush = TRUE
   DrainRechecks = TRUE
-  DrainCountsAll = TRUE
+  DrainCountsAll = FALSE
 SPECIFICATION Spec
 INVARIANT TypeOK
 INVARIANT CountsAgree
